@@ -295,6 +295,84 @@ func runCache(tier string, seed int64, summaryPath, outPath string) {
 		sum.Kinds["concurrent.mixed_round"]++
 		h.Close()
 	}
+	// fan rounds: ONE issuer, two receivers. The first receiver removes what it was sent while the issuer's transfers to the second
+	// receiver are being saved: the two operations share only the ISSUER's list (a per-address locking scheme that takes the caller's
+	// address alone lets the removal rewrite that list under a concurrent save). Afterwards every listing is saved-and-not-removed.
+	for round := 0; round < nMixed; round++ {
+		h, _ := cache.New(32*10_000, 128)
+		const n = 24
+		first := make([]transaction.Transaction, n)
+		second := make([]transaction.Transaction, n)
+		for i := range first {
+			first[i] = transaction.Transaction{CreatedAt: time.Now(), IssuerAddress: addrs[0], ReceiverAddress: addrs[3], Subject: "f", Data: []byte{1}, Spice: spice.Melange{Currency: 1}}
+			first[i].Hash[0], first[i].Hash[1], first[i].Hash[2] = byte(i+1), 0x55, byte(round)
+			second[i] = transaction.Transaction{CreatedAt: time.Now(), IssuerAddress: addrs[0], ReceiverAddress: addrs[2], Subject: "f", Data: []byte{2}, Spice: spice.Melange{Currency: 1}}
+			second[i].Hash[0], second[i].Hash[1], second[i].Hash[2] = byte(i+1), 0x66, byte(round)
+			h.SaveAwaitedTransaction(&first[i])
+		}
+		var wg sync.WaitGroup
+		start := make(chan struct{})
+		removedF := make([]bool, n)
+		savedS := make([]bool, n)
+		for g := 0; g < 4; g++ {
+			wg.Add(2)
+			go func(g int) { // the first receiver removes its quarter
+				defer wg.Done()
+				<-start
+				for i := g; i < n; i += 4 {
+					if _, err := h.RemoveAwaitedTransaction(first[i].Hash, addrs[3]); err == nil {
+						removedF[i] = true
+					}
+				}
+			}(g)
+			go func(g int) { // the issuer's transfers to the second receiver arrive
+				defer wg.Done()
+				<-start
+				for i := g; i < n; i += 4 {
+					if h.SaveAwaitedTransaction(&second[i]) == nil {
+						savedS[i] = true
+					}
+				}
+			}(g)
+		}
+		close(start)
+		wg.Wait()
+		want := map[string]map[[32]byte]bool{addrs[0]: {}, addrs[3]: {}, addrs[2]: {}}
+		for i := 0; i < n; i++ {
+			if !removedF[i] {
+				want[addrs[0]][first[i].Hash] = true
+				want[addrs[3]][first[i].Hash] = true
+			}
+			if savedS[i] {
+				want[addrs[0]][second[i].Hash] = true
+				want[addrs[2]][second[i].Hash] = true
+			}
+		}
+		for _, a := range []string{addrs[0], addrs[3], addrs[2]} {
+			trxs, _ := h.ReadTransactions(a)
+			cnt := map[[32]byte]int{}
+			for _, t := range trxs {
+				cnt[t.Hash]++
+			}
+			lost, invented := 0, 0
+			for hsh := range want[a] {
+				if cnt[hsh] == 0 {
+					lost++
+				}
+			}
+			for hsh, c := range cnt {
+				if !want[a][hsh] || c > 1 {
+					invented++
+				}
+			}
+			if lost+invented > 0 {
+				viol("concurrent-lost-or-invented-entry", map[string]any{"round": round, "kind": "one issuer, receiver A removing while transfers to receiver B are saved", "address_index": a == addrs[0], "lost": lost, "invented_or_duplicated": invented})
+			}
+		}
+		sum.Evaluations++
+		sum.Kinds["concurrent.fan_round"]++
+		h.Close()
+	}
 	// duplicate rounds: the SAME transaction saved by 8 goroutines at once: one must win, it is listed once
 	var h *cache.Hippocampus
 	for round := 0; round < nConc*4; round++ {
@@ -405,7 +483,7 @@ func runCache(tier string, seed int64, summaryPath, outPath string) {
 		}
 		h.Close()
 	}
-	sum.Exhaustive = "sequential part: seeded op sequences; concurrent part: phased rounds (16 savers, then 8 removers), mixed rounds (saver + remover + 6 polling readers) duplicate rounds (one transaction saved by 8 goroutines) and re-save rounds (re-delivery racing with the receiver's removal under polling readers) on one receiver (search, not proof)"
+	sum.Exhaustive = "sequential part: seeded op sequences; concurrent part: phased rounds (16 savers, then 8 removers), mixed rounds (saver + remover + 6 polling readers) fan rounds (one issuer: receiver A removing while transfers to receiver B are saved), duplicate rounds (one transaction saved by 8 goroutines) and re-save rounds (re-delivery racing with the receiver's removal under polling readers) on one receiver (search, not proof)"
 	var b bytes.Buffer
 	b.WriteString("From Coq Require Import List Arith NArith Bool.\nFrom Verif Require Import Cache CheckCache.\nImport ListNotations.\nLocal Open Scope N_scope.\n")
 	b.WriteString("Definition traces : list (list cobs) := [\n" + strings.Join(traces, ";\n") + "].\n")
